@@ -57,6 +57,8 @@ THOROUGH_LEAVES = {
     'circle_defaults': ('circle', {'r': '2.5'}),
     'line_defaults': ('line', {'x2': '7', 'y2': '5'}),
     'rect_big_radii': ('rect', {'x': '1', 'y': '2', 'width': '6', 'height': '4', 'rx': '5', 'ry': '3'}),
+    'rect_big_rx_only': ('rect', {'x': '1', 'y': '2', 'width': '4', 'height': '12', 'rx': '5'}),
+    'rect_big_ry_only': ('rect', {'x': '1', 'y': '2', 'width': '12', 'height': '4', 'ry': '5'}),
     'polyline_commas': ('polyline', {'points': '1 1,4 2,3 5'}),
     'path_relative': ('path', {'d': 'm1,1 l4,1 q2,3 -1,4 t-3,1 a2 1 0 0110 10z'}),
 }
@@ -179,7 +181,7 @@ def check_doc(kind, ta, tb, acc, tmpdir, leaves, readers=None):
     byid = {r['id']: r for r in recs}
     case0 = {'kind': kind, 'ta': ta, 'tb': tb}
     tagk = leaves[kind][0]
-    has_arc = tagk in ('circle', 'ellipse') or kind in ('path_arc', 'rect_rx', 'rect_ry', 'rect_rx_ry', 'rect_big_radii', 'path_relative')
+    has_arc = tagk in ('circle', 'ellipse') or kind.startswith('rect_') or kind in ('path_arc', 'path_relative')
 
     def judge(reader, p, rec, with_tf, case):
         polys = ref_polylines(rec, with_tf)
